@@ -48,6 +48,28 @@ def fmt_of(m):
     return ' '.join(A.text(a) for a in m.get('args') or [])
 
 
+def check_comment_confined(rep, crate, rule='R14.7'):
+    """a line comment is confined to its line (shared with C13)"""
+    pb = [b for b in crate.bodies if b.path.startswith('idl::parse::') and not b.in_test and b.kind == 'Fn']
+    byname = {b.name: b for b in pb}
+    cd = byname.get('comment_def')
+    if cd is None:
+        rep.bad(rule, 'comment_def|anchor', IDL + '/parse/mod.rs', 'comment_def not found')
+    else:
+        bad = []
+        for blk, tm in cd.iter_terms('call'):
+            d = tm['callee'].get('def') or ''
+            a = tm['callee'].get('args') or ''
+            if d.split('::')[-1] in ('ws', 'whitespace_only', 'parse_preceding_comments') or 'multispace' in a or 'multispace' in d or 'line_ending' in a or 'newline' in a:
+                bad.append('%s at %s' % (d.split('::')[-1] if d.startswith('idl::parse') else re.sub(r'.*(multispace\d|line_ending|newline).*', r'\1', a), C.where(cd, blk)))
+        # the text scan stops at the newline
+        stops = any(o.get('k') == 'const' and o.get('val') == 10 for c2 in [cd] + C.nested(crate, cd) for blk, i, st in c2.iter_assigns()
+                    for o in [st['rv'].get('a'), st['rv'].get('b')] if isinstance(o, dict))
+        rep.check(not bad and stops, rule, 'comment_def|confined-to-line', cd.where(),
+                  'between `#` and the end of the line the comment parser calls nothing that can consume a newline, and its text scan stops at the newline',
+                  'the comment parser can consume a newline before reading the comment text (%s): an empty comment swallows the following line, so `# ` + next line do not survive a round trip' % (bad or 'no scan up to the newline found'))
+
+
 def check(fx, rep, tier):
     rep.rule('R14.1', 'every loop over a list of fields / parameters / variants in a Display impl writes a `,` between elements, in every branch')
     rep.rule('R14.2', 'printer and parser token tables agree (primitive names, wrappers, member keywords)')
@@ -56,6 +78,7 @@ def check(fx, rep, tier):
     rep.rule('R14.5', 'the element parser behind `[]` / `[string]` is the full type parser used for field types')
     rep.rule('R14.7', 'a line comment is confined to its line: comment_def calls no newline-consuming parser before its text and scans up to the newline')
     rep.rule('R14.6', 'comments are recognised only in ws / comment_def: no other function tests for `#` and advances the input')
+    rep.rule('R14.8', 'rendered names parse back: the name scanners accept exactly the names of the grammar (rule R13.7 of C13: abstract interpretation of the scanners against the lexical rules), so every legal name Display writes is read back whole')
     t = fx.tpl
     disp = display_impls(t)
     if len(disp) < 8:
@@ -244,20 +267,9 @@ def check(fx, rep, tier):
               'the set of parser functions that look for `#` is %s, expected {comment_def, ws}: a comment that is recognised and skipped elsewhere is not attached to '
               'its member and is lost when the description is parsed back' % sorted(hashers))
     # ---- R14.7 a line comment is confined to its line
-    cd = byname.get('comment_def')
-    if cd is None:
-        rep.bad('R14.7', 'comment_def|anchor', IDL + '/parse/mod.rs', 'comment_def not found')
-    else:
-        bad = []
-        for blk, tm in cd.iter_terms('call'):
-            d = tm['callee'].get('def') or ''
-            a = tm['callee'].get('args') or ''
-            if d.split('::')[-1] in ('ws', 'whitespace_only', 'parse_preceding_comments') or 'multispace' in a or 'multispace' in d or 'line_ending' in a or 'newline' in a:
-                bad.append('%s at %s' % (d.split('::')[-1] if d.startswith('idl::parse') else re.sub(r'.*(multispace\d|line_ending|newline).*', r'\1', a), C.where(cd, blk)))
-        # the text scan stops at the newline
-        stops = any(o.get('k') == 'const' and o.get('val') == 10 for c2 in [cd] + C.nested(crate, cd) for blk, i, st in c2.iter_assigns()
-                    for o in [st['rv'].get('a'), st['rv'].get('b')] if isinstance(o, dict))
-        rep.check(not bad and stops, 'R14.7', 'comment_def|confined-to-line', cd.where(),
-                  'between `#` and the end of the line the comment parser calls nothing that can consume a newline, and its text scan stops at the newline',
-                  'the comment parser can consume a newline before reading the comment text (%s): an empty comment swallows the following line, so `# ` + next line do not survive a round trip' % (bad or 'no scan up to the newline found'))
+    check_comment_confined(rep, crate, 'R14.7')
+    # ---- R14.8 legal names parse back: the name scanners accept every name of the grammar (imported from C13, R13.7)
+    import c13
+    c13.check_scanners(rep, crate, 'full', rule='R14.8', prefix='')
+    rep.floor('R14.8', 21, 'scanner verdict instances (3 scanners x 7)')
     return META
